@@ -214,6 +214,21 @@ bool File::readULong(unsigned long& value)
 	return true;
 }
 
+// Check that at least len more bytes can be read from the stream. A length
+// field read from a (corrupt) file must not be trusted to size a buffer.
+static bool hasBytesLeft(FILE* stream, unsigned long len)
+{
+	long cur = ftell(stream);
+
+	if ((cur < 0) || (fseek(stream, 0, SEEK_END) != 0)) return false;
+
+	long end = ftell(stream);
+
+	if ((fseek(stream, cur, SEEK_SET) != 0) || (end < cur)) return false;
+
+	return len <= (unsigned long) (end - cur);
+}
+
 // Read a ByteString value; warning: not thread safe without locking!
 bool File::readByteString(ByteString& value)
 {
@@ -223,6 +238,11 @@ bool File::readByteString(ByteString& value)
 	unsigned long len;
 
 	if (!readULong(len))
+	{
+		return false;
+	}
+
+	if (!hasBytesLeft(stream, len))
 	{
 		return false;
 	}
@@ -407,6 +427,11 @@ bool File::readString(std::string& value)
 	unsigned long len;
 
 	if (!readULong(len))
+	{
+		return false;
+	}
+
+	if (!hasBytesLeft(stream, len))
 	{
 		return false;
 	}
